@@ -461,6 +461,9 @@ func (x Expr) Get(data any) (results []any) {
 					}
 				}
 			} else {
+				// The expansion of prev is done. Clear the flag so a sibling of
+				// prev that shares this marker is expanded as well.
+				stack[len(stack)-1] = di &^ descentFlag
 				if int(fi) == len(x)-1 { // last one
 					if top {
 						results = append(results, prev)
@@ -1322,6 +1325,9 @@ func (x Expr) FirstFound(data any) (any, bool) {
 
 				}
 			} else {
+				// The expansion of prev is done. Clear the flag so a sibling of
+				// prev that shares this marker is expanded as well.
+				stack[len(stack)-1] = di &^ descentFlag
 				stack = append(stack, prev)
 			}
 		case Root:
